@@ -369,6 +369,23 @@ def F37(fil):
     return declared != actual, f"encode_key('source_name', 'SGR_\u03b2'): length prefix {declared}, {actual} bytes follow"
 
 
+def F38(fil):
+    # the fixture band descends (foff < 0): a negative DM makes every channel but the first lead the reference
+    dm = -1.0
+    d = fil.header.get_dmdelays(dm).astype(int)
+    lo = min(0, int(d.min()))
+    whole = fil.read_block(0, fil.header.nsamples).data.astype(np.float64)
+    shift = d - lo
+    length = fil.header.nsamples - int(shift.max())
+    want = np.array([whole[np.arange(fil.header.nchans), t + shift].sum() for t in range(length)], dtype=np.float32)
+    out = {}
+    for gulp in (16384, 64):
+        tim = fil.dedisperse(dm, gulp=gulp, quiet=True)
+        out[gulp] = (tim.data.size, bool(tim.data.size == length and np.array_equal(tim.data, want)))
+    return any(not ok for _, ok in out.values()), (f"dedisperse(dm={dm}) with delays {int(d.min())}..{int(d.max())}: (length, equals sum_c x[c, t + delay_c - min delay]) "
+                                                   f"per gulp = {out}, expected length {length}")
+
+
 ALL = {k: v for k, v in globals().items() if k.startswith("F") and k[1:].isdigit()}
 
 
